@@ -10,7 +10,7 @@ TECH = 'CBMC 6.11 code contracts (goto-instrument --dfcc) on functions extracted
 
 # id -> (decided text, not-decided list, design ref)
 P = {
- 'C01': ('Proof (contracts, all inputs) of the per-edge kernels the region semantics rests on: IsContributingClosed == boundary test of OP(cliptype, FILLED(fillrule, w_subj), FILLED(fillrule, w_clip)) for all 5x4 combinations and all winding numbers; the winding-count update of IntersectEdges preserves the face-winding representation; AddNewIntersectNode keeps the vertex in the scanbeam and on an edge; SetWindCountForClosedPathEdge (bounded AEL) establishes the representation; ring surgery (AddOutPt, JoinOutrecPaths, AddLocalMaxPoly, SwapOutrecs, DuplicateOp) keeps the OutPt rings consistent; UpdateEdgeIntoAEL advances an edge to the next vertex in its winding direction and schedules a scanline at its top; the join pairing is maintained by Split/CheckJoinLeft/CheckJoinRight; IsValidAelOrder orders edges that are apart by x alone; bounded DoTopOfScanbeam and InsertLeftEdge; the Paths64 wrappers BooleanOp/Union always run the operation (no shortcut on empty clips).',
+ 'C01': ('Proof (contracts, all inputs) of the per-edge kernels the region semantics rests on: IsContributingClosed == boundary test of OP(cliptype, FILLED(fillrule, w_subj), FILLED(fillrule, w_clip)) for all 5x4 combinations and all winding numbers; the winding-count update of IntersectEdges preserves the face-winding representation; AddNewIntersectNode keeps the vertex in the scanbeam and on an edge; SetWindCountForClosedPathEdge (bounded AEL) establishes the representation; ring surgery (AddOutPt, JoinOutrecPaths, AddLocalMaxPoly, SwapOutrecs, DuplicateOp) keeps the OutPt rings consistent; UpdateEdgeIntoAEL advances an edge to the next vertex in its winding direction and schedules a scanline at its top; the join pairing is maintained by Split/CheckJoinLeft/CheckJoinRight; IsValidAelOrder orders edges that are apart by x alone; bounded DoTopOfScanbeam and InsertLeftEdge; the Paths64 wrappers BooleanOp/Union always run the operation (no shortcut on empty clips); bounded BuildIntersectList (one node for exactly the pairs that change order in a scanbeam), ProcessIntersectList (only AEL neighbours are intersected, AEL ordered afterwards, node search stays in bounds) and DoMaxima.',
          ['AEL ordering, intersection ordering, horizontals, ring assembly, intersection-point accuracy (both precision builds): invariants over unbounded linked structures / floating point'], '5 C01'),
  'C03': ('Proof of the structural predicates (PtsReallyClose, IsVerySmallTriangle, IsValidClosedPath) and of DoSplitOp (the splice creates no equal neighbours; loop-free, rings of 4/5/6); bounded checks of BuildPath64 (>=3 vertices, no equal neighbours incl. last/first) and CleanCollinear (no removable vertex left, over abstract geometry).',
          ['FixSelfIntersects loop, bounding-box clause, all geometric clauses (spikes beyond CleanCollinear, crossings, orientation vs nesting, Union idempotence)'], '5 C03'),
@@ -26,7 +26,7 @@ P = {
          ['what the location state machine outputs beyond safety, TidyEdges, intersection points, winding equality'], '5 C08'),
  'C09': ('Proof of the shared rectangle kernel incl. GetNextLocation (loop contracts), RectClipLines64::Execute shortcuts and per-polyline scratch reset, ExecuteInternal call trace (walk starts at segment 1); bounded GetPath (ring order, two-point pieces kept).',
          ['piece positions and lengths (intersection points)'], '5 C09'),
- 'C10': ('Proof of index/iterator safety and UB-freedom (bounds, pointers, signed overflow, conversions, division by zero, float overflow/NaN where stated) of every function under contract, with the coordinate ranges of the property as preconditions; call-site preconditions of the offsetting helpers; GetDx/TopX integer arithmetic; CheckSplitOwner progress contract (termination); MoveSplits keeps every split list owned (no leak); bounded PointInPolygon on polygons lying in the query line; bounded ProcessHorzJoins (rings stay consistent and singly owned; the absorbed OutRec drops its ring before an allocation can fail).',
+ 'C10': ('Proof of index/iterator safety and UB-freedom (bounds, pointers, signed overflow, conversions, division by zero, float overflow/NaN where stated) of every function under contract, with the coordinate ranges of the property as preconditions; call-site preconditions of the offsetting helpers; GetDx/TopX integer arithmetic; CheckSplitOwner progress contract (termination); MoveSplits keeps every split list owned (no leak); bounded PointInPolygon on polygons lying in the query line; bounded ProcessHorzJoins (rings stay consistent and singly owned; the absorbed OutRec drops its ring before an allocation can fail). bounded DisposeOutPts/DisposeAllOutRecs/DeleteEdges free everything exactly once.',
          ['termination and memory safety of whole operations; leaks; the allocation-failure clause (no exceptions in the verified C dialect)'], '5 C10'),
  'C11': ('Proof of CheckPrecisionRange (both exception configurations), ScalePath/ScalePaths error reporting, PathsD entry points check precision first and return empty on error (call-trace), export-layer argument validation; AddLocalMaxPoly clears succeeded_ only on a front/back mismatch without an open end.',
          ['"Execute returns true for every input" (needs a global sweep invariant)'], '5 C11'),
